@@ -124,6 +124,17 @@ pub fn min_len(prog: &[Op]) -> usize {
 
 /// well-formed UTF-8 of exactly n octets when possible (n >= 1), mixing 1..4-octet characters
 pub fn gen_utf8(rng: &mut Rng, n: usize) -> Vec<u8> {
+    // strings a lenient or "tidying" decoder might treat specially: NULs, blanks, line ends, BOM
+    if n <= 8 && rng.chance(1, 6) {
+        const SPECIAL: &[&[u8]] = &[
+            b"\0", b"\0\0", b"\0\0\0\0", b"a\0", b"\0a", b"ab\0\0", b" ", b"  ", b" a", b"a ", b"\n", b"a\r\n", b"\t",
+            b"\xef\xbb\xbfa", b"\x7f", b"\"", b"\\", b"%00", b"a\0b",
+        ];
+        let fit: Vec<&&[u8]> = SPECIAL.iter().filter(|x| x.len() == n).collect();
+        if !fit.is_empty() {
+            return rng.pick(&fit).to_vec();
+        }
+    }
     let mut out = Vec::with_capacity(n);
     while out.len() < n {
         let left = n - out.len();
@@ -178,6 +189,7 @@ pub fn gen_len(rng: &mut Rng, max: usize) -> usize {
         5 => max,
         6 => max - 1,
         7 => rng.range(1, 300) as usize,
+        8 | 9 => rng.range(1, 5) as usize,
         _ => rng.range(1, 40) as usize,
     };
     n.clamp(1, max)
